@@ -494,6 +494,12 @@ PacketConf(b, res, typed, base) ==
                     /\ res.view.variant = var =>
                           /\ TypedConf(var, b, [t |-> "ok", view |-> res.view.inner], base)
                           /\ P("C08") => (res.view.phdr = [f \in DOMAIN res.view.phdr |-> res.view.inner.hdr[f]])
+                          \* C18: an error of a conversion from the parsed packet tells the truth about these bytes
+                          /\ P("C18") =>
+                                \A t \in PacketKinds :
+                                   /\ IsErr(res.view.conv[t]) => Truthful(PTOf(t), b, AsErr(res.view.conv[t]))
+                                   /\ (Has(res.view, "conv_val") /\ IsErr(res.view.conv_val[t])) =>
+                                         Truthful(PTOf(t), b, AsErr(res.view.conv_val[t]))
                           /\ P("C12") =>
                                 /\ res.view.is_unknown = (var = "unknown")
                                 /\ \A t \in PacketKinds :
@@ -638,8 +644,11 @@ CNextConf(c, ev) ==
     LET res == ev.res
     IN  /\ CNextCtl(c, res)
         /\ NoPanic(ev)
-        /\ (P("C11") /\ ~(c.over \/ c.pos > Len(c.tiles)) /\ res.t = "some") =>
-                   /\ Has(ev, "direct") =>                            \* IterFaithful against the real generic parser
+        \* IterFaithful against the real generic parser: what next() yields is what Packet::parse returns on that
+        \* tile alone (C14: "each equal to the member parsed on its own").  A tile named by the executor itself
+        \* (tile_auto: read off the iterator's Debug rendering) only counts when it is the tile of the specification.
+        /\ ((P("C11") \/ P("C14")) /\ ~(c.over \/ c.pos > Len(c.tiles)) /\ res.t = "some") =>
+                   /\ (Has(ev, "direct") /\ (~Has(ev, "tile_auto") \/ ev.tile = c.tiles[c.pos])) =>
                          /\ ev.tile = c.tiles[c.pos]
                          /\ res.item = ev.direct
                    /\ (Has(ev, "dbg") /\ ev.dbg # <<>>) =>            \* extra cross-check on the code's own offset
